@@ -744,12 +744,23 @@ package meta
 // out of the slice (afterwards the same position holds the next, still retained group, whose later end time would
 // make the cleaner drop columns - and measurements - that still have data inside the retention window).
 //@   ghost cut bool = false
+//@   ghost removed bool = false
+//@   ghost mx int = 0
 //@   call IsZero
 //@     set cut = false
 //@   call append
 //@     set cut = true
+//@     set removed = true
 //@   call UnixNano
 //@     requires [end_time_of_the_removed_group_is_read_before_the_cut] !cut
+//@     set mx = (ret0 > mx ? ret0 : mx)
+// ... and the columns of a policy are cleaned only when a group of THAT policy was removed in this walk, against an end
+// time no later than the latest end of the groups removed from it (a removal in one policy says nothing about the columns
+// of the policies and databases visited after it: their idle measurements would lose columns that are not expired).
+//@   call .SchemaClean
+//@     requires [cleaned_only_after_a_removal_in_this_policy_and_up_to_its_end] removed && arg1 <= mx
+//@   loop 1
+//@     invariant (deleteSg ==> removed) && endTime <= mx
 
 
 // ================================================================ C14: schema cleaning
